@@ -1,6 +1,590 @@
-//! C02 — stub (filled in below)
+//! C02 — formatting never changes what the document compiles to.
+//!
+//! Both texts are compiled with typst 0.13.1 in an in-memory world (main file only, embedded fonts, fixed date,
+//! no packages, no file system) and rendered with typst-render at 2 px/pt.
+
+#![cfg_attr(not(feature = "world"), allow(unused))]
+
 use crate::engine::{Acc, RunMeta};
 use crate::fmtx::Cfg;
 use crate::workload::Tier;
-pub fn violated(_input: &str, _cfg: Cfg) -> Option<bool> { None }
-pub fn run(tier: Tier) -> (RunMeta, Acc) { (RunMeta::new("C02", tier.name(), "exploration", ""), Acc::new()) }
+
+#[cfg(not(feature = "world"))]
+pub fn violated(_input: &str, _cfg: Cfg) -> Option<bool> {
+    None
+}
+
+#[cfg(not(feature = "world"))]
+pub fn run(tier: Tier) -> (RunMeta, Acc) {
+    let mut acc = Acc::new();
+    acc.inconclusive("built-without-feature-world");
+    (RunMeta::new("C02", tier.name(), "exploration", "built without the typst compiler"), acc)
+}
+
+#[cfg(feature = "world")]
+pub use imp::*;
+
+#[cfg(feature = "world")]
+mod imp {
+    use std::sync::OnceLock;
+
+    use serde_json::json;
+    use typst::diag::{FileError, FileResult, Severity, SourceDiagnostic};
+    use typst::foundations::{Bytes, Datetime};
+    use typst::layout::PagedDocument;
+    use typst::syntax::{FileId, Source, VirtualPath};
+    use typst::text::{Font, FontBook};
+    use typst::utils::LazyHash;
+    use typst::{Library, World};
+
+    use crate::engine::{Acc, Case, RunMeta, Violation};
+    use crate::fmtx::{self, Cfg, FmtOut};
+    use crate::pools::{self, GenPool, ListPool};
+    use crate::util::{self, Rng};
+    use crate::workload::{self, CfgRule, Part, Std, Tier};
+    use crate::{corpus, gen};
+
+    struct Shared {
+        library: LazyHash<Library>,
+        book: LazyHash<FontBook>,
+        fonts: Vec<Font>,
+    }
+
+    fn shared() -> &'static Shared {
+        static S: OnceLock<Shared> = OnceLock::new();
+        S.get_or_init(|| {
+            let mut fonts = vec![];
+            for data in typst_assets::fonts() {
+                for f in Font::iter(Bytes::new(data)) {
+                    fonts.push(f);
+                }
+            }
+            let book = FontBook::from_fonts(&fonts);
+            Shared { library: LazyHash::new(Library::default()), book: LazyHash::new(book), fonts }
+        })
+    }
+
+    struct MemWorld {
+        main: Source,
+    }
+
+    impl MemWorld {
+        fn new(text: &str) -> MemWorld {
+            let id = FileId::new(None, VirtualPath::new("/main.typ"));
+            MemWorld { main: Source::new(id, text.to_string()) }
+        }
+    }
+
+    impl World for MemWorld {
+        fn library(&self) -> &LazyHash<Library> {
+            &shared().library
+        }
+        fn book(&self) -> &LazyHash<FontBook> {
+            &shared().book
+        }
+        fn main(&self) -> FileId {
+            self.main.id()
+        }
+        fn source(&self, id: FileId) -> FileResult<Source> {
+            if id == self.main.id() {
+                Ok(self.main.clone())
+            } else {
+                Err(FileError::NotFound(id.vpath().as_rootless_path().to_path_buf()))
+            }
+        }
+        fn file(&self, id: FileId) -> FileResult<Bytes> {
+            Err(FileError::NotFound(id.vpath().as_rootless_path().to_path_buf()))
+        }
+        fn font(&self, index: usize) -> Option<Font> {
+            shared().fonts.get(index).cloned()
+        }
+        fn today(&self, _offset: Option<i64>) -> Option<Datetime> {
+            Datetime::from_ymd(2024, 1, 1)
+        }
+    }
+
+    #[derive(Debug, Clone, PartialEq, Eq)]
+    pub enum Summary {
+        Ok { pages: Vec<(i64, i64, u64)>, info: String, warnings: Vec<String> },
+        Err { diags: Vec<String>, warnings: Vec<String> },
+        TooSlow,
+    }
+
+    fn diag_repr(d: &SourceDiagnostic) -> String {
+        format!(
+            "{}:{}{}",
+            match d.severity {
+                Severity::Error => "error",
+                Severity::Warning => "warning",
+            },
+            d.message,
+            if d.hints.is_empty() { String::new() } else { format!(" hints={:?}", d.hints) }
+        )
+    }
+
+    fn hash_bytes(b: &[u8]) -> u64 {
+        let mut h: u64 = 0xcbf29ce484222325;
+        for chunk in b.chunks(8) {
+            let mut v = 0u64;
+            for (i, x) in chunk.iter().enumerate() {
+                v |= (*x as u64) << (8 * i);
+            }
+            h ^= v;
+            h = h.wrapping_mul(0x100000001b3);
+        }
+        h
+    }
+
+    pub fn compile_summary(text: &str) -> Summary {
+        let world = MemWorld::new(text);
+        let t0 = util::thread_cpu_ns();
+        let res = match fmtx::guarded(|| typst::compile::<PagedDocument>(&world)) {
+            Ok(r) => r,
+            Err(_) => return Summary::TooSlow, // the reference compiler itself panicked: nothing to compare
+        };
+        let mut warnings: Vec<String> = res.warnings.iter().map(diag_repr).collect();
+        warnings.sort();
+        let out = match res.output {
+            Ok(doc) => {
+                if util::thread_cpu_ns() - t0 > 5_000_000_000 {
+                    return Summary::TooSlow;
+                }
+                let mut pages = vec![];
+                for p in doc.pages.iter().take(12) {
+                    let pm = typst_render::render(p, 2.0);
+                    pages.push((
+                        (p.frame.width().to_pt() * 1000.0) as i64,
+                        (p.frame.height().to_pt() * 1000.0) as i64,
+                        hash_bytes(pm.data()),
+                    ));
+                }
+                if doc.pages.len() > 12 {
+                    pages.push((doc.pages.len() as i64, 0, 0));
+                }
+                let info = format!("title={:?} author={:?} keywords={:?} date={:?} description={:?}", doc.info.title, doc.info.author, doc.info.keywords, doc.info.date, doc.info.description);
+                Summary::Ok { pages, info, warnings }
+            }
+            Err(errs) => {
+                let mut diags: Vec<String> = errs.iter().map(diag_repr).collect();
+                diags.sort();
+                Summary::Err { diags, warnings }
+            }
+        };
+        out
+    }
+
+    fn describe(a: &Summary, b: &Summary) -> String {
+        match (a, b) {
+            (Summary::Ok { pages: pa, info: ia, warnings: wa }, Summary::Ok { pages: pb, info: ib, warnings: wb }) => {
+                if pa.len() != pb.len() {
+                    format!("page count {} -> {}", pa.len(), pb.len())
+                } else if let Some(i) = (0..pa.len()).find(|&i| pa[i] != pb[i]) {
+                    if (pa[i].0, pa[i].1) != (pb[i].0, pb[i].1) {
+                        format!("page {} size {:?} -> {:?} (1/1000 pt)", i + 1, (pa[i].0, pa[i].1), (pb[i].0, pb[i].1))
+                    } else {
+                        format!("page {} renders differently (pixel hash {:x} -> {:x})", i + 1, pa[i].2, pb[i].2)
+                    }
+                } else if ia != ib {
+                    format!("document info {} -> {}", ia, ib)
+                } else {
+                    format!("warnings {:?} -> {:?}", wa, wb)
+                }
+            }
+            (Summary::Ok { .. }, Summary::Err { diags, .. }) => format!("original compiles, formatted text fails: {:?}", diags),
+            (Summary::Err { diags, .. }, Summary::Ok { .. }) => format!("original fails ({:?}), formatted text compiles", diags),
+            (Summary::Err { diags: da, warnings: wa }, Summary::Err { diags: db, warnings: wb }) => {
+                if da != db {
+                    format!("diagnostics {:?} -> {:?}", da, db)
+                } else {
+                    format!("warnings {:?} -> {:?}", wa, wb)
+                }
+            }
+            _ => "compile too slow".into(),
+        }
+    }
+
+    pub fn run_case(case: &Case, cfgs: &[Cfg], acc: &mut Acc) {
+        if crate::tree::parse_ok(&case.text).is_none() {
+            acc.inconclusive("input-erroneous");
+            return;
+        }
+        // programs that make the *compiler* allocate without bound are outside what can be observed safely
+        let mut huge = false;
+        if let Some(root) = crate::tree::parse_ok(&case.text) {
+            crate::tree::walk(&root, &mut |n, _, _| {
+                if matches!(n.kind(), typst::syntax::SyntaxKind::Int | typst::syntax::SyntaxKind::Float | typst::syntax::SyntaxKind::Numeric) {
+                    let digits = n.text().chars().filter(|c| c.is_ascii_digit()).count();
+                    if digits > 4 || n.text().contains('e') {
+                        huge = true;
+                    }
+                }
+            });
+        }
+        if huge {
+            acc.inconclusive("huge-number-literal(compiler resource risk)");
+            return;
+        }
+        let xh = util::hash64(&case.text);
+        acc.distinct_inputs.insert(xh);
+        let sx = compile_summary(&case.text);
+        if sx == Summary::TooSlow {
+            acc.inconclusive("compile-too-slow-or-compiler-panic");
+            return;
+        }
+        acc.count("compiles", 1);
+        match &sx {
+            Summary::Ok { pages, .. } => {
+                acc.count("inputs_that_compile", 1);
+                acc.count("pages_rendered", pages.len() as u64);
+            }
+            _ => acc.count("inputs_that_fail_to_compile(diagnostics clause)", 1),
+        }
+        let mut seen = std::collections::HashSet::new();
+        for &cfg in cfgs {
+            let y = match fmtx::fmt(&case.text, cfg) {
+                FmtOut::Ok(y) => y,
+                FmtOut::Refused => {
+                    acc.inconclusive("refused");
+                    continue;
+                }
+                FmtOut::Panic(_) => {
+                    acc.inconclusive("panic(see C05)");
+                    continue;
+                }
+            };
+            acc.evaluations += 1;
+            if !seen.insert(util::hash64(&y)) {
+                acc.held += 1;
+                acc.count("executions_with_already_judged_output", 1);
+                continue;
+            }
+            if y == case.text {
+                acc.held += 1;
+                continue;
+            }
+            let sy = compile_summary(&y);
+            acc.count("compiles", 1);
+            if sy == Summary::TooSlow {
+                acc.inconclusive("compile-too-slow");
+                continue;
+            }
+            if sx == sy {
+                acc.held += 1;
+                if matches!(sx, Summary::Ok { .. }) {
+                    acc.nontrivial.insert(xh);
+                    if acc.samples.len() < 3 && case.text.len() < 200 {
+                        acc.sample(json!({"input": case.text, "cfg": cfg.json(), "output": y, "origin": case.origin, "summary": format!("{:?}", sx)}));
+                    }
+                }
+            } else {
+                acc.nontrivial.insert(xh);
+                acc.violations.push(Violation {
+                    property: "C02".into(),
+                    input: case.text.clone(),
+                    cfg: Some(cfg),
+                    origin: case.origin.clone(),
+                    oracle: "compile+render-equal".into(),
+                    detail: describe(&sx, &sy),
+                    extra: serde_json::Value::Null,
+                });
+            }
+        }
+        // bound comemo's cache
+        comemo::evict(4);
+    }
+
+    pub fn violated(input: &str, cfg: Cfg) -> Option<bool> {
+        crate::tree::parse_ok(input)?;
+        let mut acc = Acc::new();
+        run_case(&Case::new(input, "recheck"), &[cfg], &mut acc);
+        if !acc.violations.is_empty() {
+            Some(true)
+        } else if acc.held > 0 {
+            Some(false)
+        } else {
+            None
+        }
+    }
+
+    // --------------------------------------------------------------------------------------------
+    // G-TYGEN: typed program generator
+
+    #[derive(Clone, Copy, PartialEq, Eq, Debug)]
+    enum Ty {
+        Int,
+        Str,
+        Bool,
+        Arr,
+        Dict,
+        Content,
+        Fun,
+    }
+
+    struct Scope {
+        vars: Vec<(String, Ty)>,
+        n: usize,
+    }
+
+    impl Scope {
+        fn fresh(&mut self, ty: Ty) -> String {
+            self.n += 1;
+            let name = format!("{}{}", ["v", "val", "item", "x", "acc-"][self.n % 5], self.n);
+            self.vars.push((name.clone(), ty));
+            name
+        }
+        fn pick(&self, ty: Ty, r: &mut Rng) -> Option<String> {
+            let c: Vec<&String> = self.vars.iter().filter(|(_, t)| *t == ty).map(|(n, _)| n).collect();
+            if c.is_empty() {
+                None
+            } else {
+                Some(c[r.below(c.len())].clone())
+            }
+        }
+    }
+
+    fn e_int(s: &Scope, r: &mut Rng, d: usize) -> String {
+        if d == 0 || r.chance(1, 3) {
+            if let (true, Some(v)) = (r.chance(1, 2), s.pick(Ty::Int, r)) {
+                return v;
+            }
+            return format!("{}", r.below(50));
+        }
+        match r.below(12) {
+            0 => format!("{} + {}", e_int(s, r, d - 1), e_int(s, r, d - 1)),
+            1 => format!("{} * {}", e_int(s, r, d - 1), e_int(s, r, d - 1)),
+            2 => format!("({} - {}) * {}", e_int(s, r, d - 1), e_int(s, r, d - 1), e_int(s, r, d - 1)),
+            3 => format!("calc.max({}, {})", e_int(s, r, d - 1), e_int(s, r, d - 1)),
+            4 => format!("{}.len()", e_arr(s, r, d - 1)),
+            5 => format!("{}.sum()", e_arr(s, r, d - 1)),
+            6 => format!("if {} {{ {} }} else {{ {} }}", e_bool(s, r, d - 1), e_int(s, r, d - 1), e_int(s, r, d - 1)),
+            7 => format!("{}.len()", e_str(s, r, d - 1)),
+            8 => match s.pick(Ty::Fun, r) {
+                Some(f) => format!("{}({})", f, e_int(s, r, d - 1)),
+                None => format!("calc.rem({}, 7)", e_int(s, r, d - 1)),
+            },
+            9 => format!("-{}", e_int(s, r, 0)),
+            10 => format!("{}.at(0, default: {})", e_arr(s, r, d - 1), r.below(9)),
+            _ => format!("({})", e_int(s, r, d - 1)),
+        }
+    }
+
+    fn e_bool(s: &Scope, r: &mut Rng, d: usize) -> String {
+        if d == 0 {
+            if let (true, Some(v)) = (r.chance(1, 2), s.pick(Ty::Bool, r)) {
+                return v;
+            }
+            return (*r.pick(&["true", "false"])).to_string();
+        }
+        match r.below(8) {
+            0 => format!("{} < {}", e_int(s, r, d - 1), e_int(s, r, d - 1)),
+            1 => format!("{} == {}", e_int(s, r, d - 1), e_int(s, r, d - 1)),
+            2 => format!("{} in {}", e_int(s, r, d - 1), e_arr(s, r, d - 1)),
+            3 => format!("{} not in {}", e_int(s, r, d - 1), e_arr(s, r, d - 1)),
+            4 => format!("not {}", e_bool(s, r, d - 1)),
+            5 => format!("{} and {}", e_bool(s, r, d - 1), e_bool(s, r, d - 1)),
+            6 => format!("{} or {} and {}", e_bool(s, r, d - 1), e_bool(s, r, d - 1), e_bool(s, r, d - 1)),
+            _ => format!("{} in {} not in (true,)", e_int(s, r, 0), e_arr(s, r, 0)),
+        }
+    }
+
+    fn e_str(s: &Scope, r: &mut Rng, d: usize) -> String {
+        if d == 0 || r.chance(1, 3) {
+            if let (true, Some(v)) = (r.chance(1, 2), s.pick(Ty::Str, r)) {
+                return v;
+            }
+            return format!("\"{}\"", r.pick(&["alpha", "b c", "x-y", "1,2", "q\\\"r", "é"]));
+        }
+        match r.below(5) {
+            0 => format!("{} + {}", e_str(s, r, d - 1), e_str(s, r, d - 1)),
+            1 => format!("str({})", e_int(s, r, d - 1)),
+            2 => format!("{}.join(\", \")", format!("{}.map(str)", e_arr(s, r, d - 1))),
+            3 => format!("upper({})", e_str(s, r, d - 1)),
+            _ => format!("repr({})", e_dict(s, r, d - 1)),
+        }
+    }
+
+    fn e_arr(s: &Scope, r: &mut Rng, d: usize) -> String {
+        if d == 0 || r.chance(1, 3) {
+            if let (true, Some(v)) = (r.chance(1, 2), s.pick(Ty::Arr, r)) {
+                return v;
+            }
+            return match r.below(4) {
+                0 => "()".into(),
+                1 => format!("({},)", r.below(9)),
+                _ => format!("({}, {}, {})", r.below(9), r.below(9), r.below(9)),
+            };
+        }
+        match r.below(8) {
+            0 => format!("{}.map(x => x + {})", e_arr(s, r, d - 1), e_int(s, r, 0)),
+            1 => format!("{}.filter(x => x > {})", e_arr(s, r, d - 1), r.below(5)),
+            2 => format!("range({})", r.below(6)),
+            3 => format!("({}, ..{})", e_int(s, r, d - 1), e_arr(s, r, d - 1)),
+            4 => format!("{} + {}", e_arr(s, r, d - 1), e_arr(s, r, d - 1)),
+            5 => format!("{}.rev()", e_arr(s, r, d - 1)),
+            6 => format!("{}.map(x => x * 2).filter(x => x != {}).sorted()", e_arr(s, r, d - 1), r.below(9)),
+            _ => format!("({}, {})", e_int(s, r, d - 1), e_int(s, r, d - 1)),
+        }
+    }
+
+    fn e_dict(s: &Scope, r: &mut Rng, d: usize) -> String {
+        if let (true, Some(v)) = (r.chance(1, 3), s.pick(Ty::Dict, r)) {
+            return v;
+        }
+        match r.below(5) {
+            0 => "(:)".into(),
+            1 => format!("(a: {})", e_int(s, r, d.min(1))),
+            2 => format!("(a: {}, b: {})", e_int(s, r, d.min(1)), e_str(s, r, 0)),
+            3 => format!("(\"k k\": {}, (\"a\" + \"b\"): {})", e_int(s, r, 0), e_int(s, r, 0)),
+            _ => format!("(..{}, z: {})", "(a: 1)", e_int(s, r, 0)),
+        }
+    }
+
+    fn e_content(s: &Scope, r: &mut Rng, d: usize) -> String {
+        match r.below(8) {
+            0 => format!("[value #{}]", paren(&e_int(s, r, d))),
+            1 => format!("[*{}* and _{}_]", "bold", "it"),
+            2 => format!("text(fill: red)[{}]", "red"),
+            3 => format!("[#{} #{}]", paren(&e_int(s, r, d)), paren(&e_str(s, r, d))),
+            4 => format!("strong[{}]", "s"),
+            5 => format!("box(width: {}pt, height: 5pt, fill: blue)", 5 + r.below(30)),
+            6 => match s.pick(Ty::Content, r) {
+                Some(v) => v,
+                None => "[plain]".into(),
+            },
+            _ => format!("[$x^{} + {}$]", r.below(5), r.below(9)),
+        }
+    }
+
+    fn paren(e: &str) -> String {
+        let simple = e.chars().all(|c| c.is_alphanumeric() || c == '-' || c == '_') && !e.starts_with('-') && !e.chars().next().map(|c| c.is_ascii_digit()).unwrap_or(true);
+        if simple {
+            e.to_string()
+        } else {
+            format!("({})", e)
+        }
+    }
+
+    pub fn gen_tygen(i: u64) -> Option<String> {
+        let mut r = Rng::new(i ^ 0x5459_4745);
+        let mut s = Scope { vars: vec![], n: 0 };
+        let mut out = String::from("#set page(width: 200pt, height: auto, margin: 8pt)\n");
+        let n = 3 + r.below(8);
+        for _ in 0..n {
+            let d = 1 + r.below(3);
+            let stmt = match r.below(24) {
+                0 | 1 => {
+                    let e = e_int(&s, &mut r, d);
+                    format!("#let {} = {}", s.fresh(Ty::Int), e)
+                }
+                2 => {
+                    let e = e_str(&s, &mut r, d);
+                    format!("#let {} = {}", s.fresh(Ty::Str), e)
+                }
+                3 => {
+                    let e = e_arr(&s, &mut r, d);
+                    format!("#let {} = {}", s.fresh(Ty::Arr), e)
+                }
+                4 => {
+                    let e = e_dict(&s, &mut r, d);
+                    format!("#let {} = {}", s.fresh(Ty::Dict), e)
+                }
+                5 => {
+                    let e = e_bool(&s, &mut r, d);
+                    format!("#let {} = {}", s.fresh(Ty::Bool), e)
+                }
+                6 => {
+                    let e = e_content(&s, &mut r, d);
+                    format!("#let {} = {}", s.fresh(Ty::Content), e)
+                }
+                7 => {
+                    // function int -> int
+                    let mut inner = Scope { vars: s.vars.clone(), n: s.n };
+                    inner.vars.push(("p".into(), Ty::Int));
+                    let body = e_int(&inner, &mut r, d);
+                    let name = s.fresh(Ty::Fun);
+                    match r.below(3) {
+                        0 => format!("#let {}(p) = {}", name, body),
+                        1 => format!("#let {} = p => {}", name, body),
+                        _ => format!("#let {}(p, k: 2) = {{\n  let t = p * k\n  t + {}\n}}", name, body),
+                    }
+                }
+                8 => {
+                    let a = e_int(&s, &mut r, 1);
+                    let b = e_str(&s, &mut r, 1);
+                    let (x, y) = (s.fresh(Ty::Int), s.fresh(Ty::Str));
+                    format!("#let ({}, {}) = ({}, {})", x, y, a, b)
+                }
+                9 => format!("#repr({})", e_int(&s, &mut r, d)),
+                10 => format!("#repr({})", e_arr(&s, &mut r, d)),
+                11 => format!("#repr({})", e_dict(&s, &mut r, d)),
+                12 => format!("#repr({})", e_bool(&s, &mut r, d)),
+                13 => format!("#{}", paren(&e_str(&s, &mut r, d))),
+                14 => format!("#{}", paren(&e_content(&s, &mut r, d))),
+                15 => format!("#if {} [yes {}] else [no]", e_bool(&s, &mut r, d), r.below(9)),
+                16 => format!("#for i in {} [#i, ]", e_arr(&s, &mut r, d)),
+                17 => format!("#for (k, v) in {} [#k = #repr(v); ]", e_dict(&s, &mut r, 1)),
+                18 => {
+                    let e = e_int(&s, &mut r, 1);
+                    format!("#{{\n  let n = 0\n  let total = {}\n  while n < 3 {{\n    n += 1\n    total = total + n\n  }}\n  repr(total)\n}}", e)
+                }
+                19 => format!("= Heading {}\nSome text with #{} inside.", r.below(9), paren(&e_int(&s, &mut r, 1))),
+                20 => format!("- item #{}\n  - nested {}\n- other", paren(&e_int(&s, &mut r, 1)), r.below(9)),
+                21 => format!("#table(columns: {}, [a], [b], [#{}], [d])", 1 + r.below(3), paren(&e_int(&s, &mut r, 1))),
+                22 => format!("#show heading: it => [<< #it.body >>]\n#set text(size: {}pt)", 8 + r.below(5)),
+                _ => format!("$ sum_(i=0)^{} i = {} $", r.below(9), r.below(99)),
+            };
+            out.push_str(&stmt);
+            out.push_str(if r.chance(1, 4) { "\n\n" } else { "\n" });
+        }
+        crate::tree::parse_ok(&out).map(|_| out)
+    }
+
+    // --------------------------------------------------------------------------------------------
+
+    pub fn run(tier: Tier) -> (RunMeta, Acc) {
+        let seed = util::seed_from_env();
+        let mut meta = RunMeta::new(
+            "C02",
+            tier.name(),
+            "exploration",
+            "self-contained programs (hand-written programs/, compiling fixtures, typed program generator G-TYGEN, G-TABLE/G-MATH/G-MARKUP documents, snippets) and their comment / whitespace / parenthesis / EOL mutants, each formatted over the width grid × tab sizes; every DISTINCT output is compiled with typst 0.13.1 in an in-memory world and rendered at 2 px/pt; compared: page count, page sizes, pixel hash of every page, document info, warnings — or, when the original fails, the multiset of diagnostics; evaluation = one format call; distinct = input hash; non-trivial = the input compiles and an output that differs from the input text was compiled and rendered",
+        );
+        let std = Std::load();
+        let grid = CfgRule::Grid { tabs: vec![2, 4, 1], reorder: vec![false] };
+        let grid1 = CfgRule::Grid { tabs: vec![2], reorder: vec![false] };
+        let mut progs = corpus::programs();
+        progs.extend(std.snippets.clone());
+        progs.extend(std.adversarial.clone());
+        progs.extend(corpus::repro_open());
+        progs.extend(std.fixtures.iter().filter(|c| c.text.len() < 20_000).cloned());
+        let prog_bases = pools::make_bases(corpus::programs().into_iter().chain(std.snippets.clone()).collect());
+        let tygen = || GenPool { name: "G-TYGEN".into(), n: gen::GEN_N, f: Box::new(gen_tygen) };
+        let tygen_bases = pools::make_bases((0..400u64).filter_map(|i| gen_tygen(i).map(|t| Case::new(t, format!("G-TYGEN#{}", i)))).collect());
+        let parts = vec![
+            Part::new(ListPool { name: "programs+snippets+adversarial+fixtures<20kB".into(), cases: progs }, usize::MAX, usize::MAX, grid.clone()),
+            Part::new(tygen(), 1500, gen::GEN_N, grid.clone()),
+            Part::new(GenPool { name: "G-TABLE".into(), n: gen::GEN_N, f: Box::new(gen::gen_table) }, 400, gen::GEN_N, grid1.clone()),
+            Part::new(GenPool { name: "G-MATH".into(), n: gen::GEN_N, f: Box::new(gen::gen_math) }, 400, gen::GEN_N, grid1.clone()),
+            Part::new(GenPool { name: "G-MARKUP".into(), n: gen::GEN_N, f: Box::new(gen::gen_markup) }, 400, gen::GEN_N, grid1.clone()),
+            Part::new(GenPool { name: "G-CODE".into(), n: gen::GEN_N, f: Box::new(gen::gen_code) }, 300, gen::GEN_N, grid1.clone()),
+            Part::new(pools::comment_pool(prog_bases.clone()), 2500, 60_000, grid1.clone()),
+            Part::new(pools::ws_pool(prog_bases.clone()), 2000, 60_000, grid1.clone()),
+            Part::new(pools::paren_pool(prog_bases.clone()), 1500, 30_000, grid1.clone()),
+            Part::new(pools::eol_pool(prog_bases.clone()), 500, 10_000, grid1.clone()),
+            Part::new(pools::comment_pool(tygen_bases.clone()), 1500, 60_000, grid1.clone()),
+            Part::new(pools::ws_pool(tygen_bases.clone()), 1500, 60_000, grid1.clone()),
+            Part::new(pools::paren_pool(tygen_bases.clone()), 1500, 60_000, grid1.clone()),
+        ];
+        let (mut acc, pm) = workload::run_parts(&parts, tier, seed, |part, case, rng, acc| {
+            let cfgs = workload::cfgs_for(&part.cfg, &case.text, tier, rng);
+            run_case(case, &cfgs, acc);
+        });
+        meta.pools = pm;
+        meta.assumptions = vec![
+            "typst 0.13.1 (compile + typst-render at 2 px/pt) is the reference semantics; rasters and document info are compared, not PDF bytes or introspection state".into(),
+            "single-file world without packages or file access: programs that import packages exercise the 'same diagnostics' clause".into(),
+        ];
+        crate::special::run_fixed_repros("C02", &mut acc);
+        (meta, acc)
+    }
+}
